@@ -8,7 +8,7 @@ from . import _difffam as FAM
 ID = 'C01'
 LEAN_TARGETS = ['Properties.C01']
 THEOREMS = ['Delta.C01_opcode_replay', 'Delta.C01_opcodes_root_list', 'Delta.C01_opcodes_root_tuple', 'Delta.C01_empty_identity', 'Delta.C01_self', 'Delta.C01_write_read', 'Delta.C01_N_set_in_tuple', 'Delta.C01_N_tuple_in_tuple',
-            'Delta.C01_scalars_roundtrip', 'Delta.C01_root_change_roundtrip', 'Delta.C01_flat_dict_roundtrip', 'Delta.C01_list_positional_roundtrip', 'Delta.C01_list_pairwise_roundtrip', 'Delta.C01_nested_dict_roundtrip', 'Delta.C01_list_opcodes_roundtrip']
+            'Delta.C01_scalars_roundtrip', 'Delta.C01_root_change_roundtrip', 'Delta.C01_flat_dict_roundtrip', 'Delta.C01_list_positional_roundtrip', 'Delta.C01_list_pairwise_roundtrip', 'Delta.C01_nested_dict_roundtrip', 'Delta.C01_list_opcodes_roundtrip', 'Delta.C01_set_roundtrip']
 RULE = ('tree-shaped pairs (generated values with 1-3 edits, flat lists with insert/delete/replace/move/duplicate, tuples edited in place, numeric arrays, flat and nested dictionaries with string keys and scalar leaves, keys added / removed / changed in value / changed in type at every level) x '
         'zip_ordered_iterables x threshold_to_diff_deeper in {0,0.33,0.9} x verbose_level in {0,1,2} x view in {text,tree} x always_include_values, mutate=False; '
         'chains of <= 6 successive edits; ignore_order+report_repetition on lists of distinct scalars. t1 + Delta(DeepDiff(t1,t2)) is compared with t2 (== plus container '
